@@ -155,9 +155,11 @@ def wrapper_part(rep, tier, rng, bad):
             # metadata values used as variables in the body: a documented channel, so the body may change with them -
             # but the wrapper switch must still leave it alone (values with a hard line break, reserved characters ...)
             tv = rng.choice(["Plain title", "First line\\\n    Second line", "A & B <c>", "Ünï \"q\""])
-            ms1 = [kv for kv in ms1 if kv[0] not in ("Title", "Custom Key")] + [("Title", tv), ("Custom Key", rng.choice(["v1", "x\\\n    y"]))]
+            # (keys with digits, hyphens, underscores and dots too: every writer must look them up under the same name)
+            ckey, cvar = rng.choice([("Custom Key", "customkey"), ("build-id", "build-id"), ("Version2", "version2"), ("x_y", "x_y"), ("a.b", "a.b"), ("Rev 3", "rev3")])
+            ms1 = [kv for kv in ms1 if kv[0] not in ("Title", ckey)] + [("Title", tv), (ckey, rng.choice(["v1", "x\\\n    y"]))]
             ms2 = ms1
-            b = b + b"\n\nTitle is [%title] and key is [%customkey] and again [%title].\n"
+            b = b + ("\n\nTitle is [%%title] and key is [%%%s] and again [%%title].\n" % cvar).encode()
             bs[bi] = b
         ext = rng.choice(exts)
         for fmt in (FORMATS if tier != "quick" else rng.sample(FORMATS, 2)):
